@@ -172,7 +172,12 @@ func c17OpGen() *rapid.Generator[c17RawOp] {
 		case "addConst":
 			o = c17Op{Op: "addConst", A: rapid.SampledFrom(c17ByKind("const", "value")).Draw(t, "a")}
 		case "addEdge":
-			o = c17Op{Op: "addEdge", A: pick(t, declared, "a"), B: pick(t, all, "b"),
+			// AddEdge takes any node as its source, built-ins included (the visitors never do that; the API allows it)
+			from := declared
+			if rapid.IntRange(0, 5).Draw(t, "fromAny") == 0 {
+				from = all
+			}
+			o = c17Op{Op: "addEdge", A: pick(t, from, "a"), B: pick(t, all, "b"),
 				Kind: rapid.IntRange(0, len(c17EdgeKinds)-1).Draw(t, "kind")}
 			// bias: a second kind between an already connected pair
 			r.Reuse = rapid.IntRange(0, 2).Draw(t, "again") == 0
